@@ -32,7 +32,7 @@ Proof. reflexivity. Qed.
 
 (* an environment in which the error flowing into the site embeds the client address *)
 Definition ev_leaky : env :=
-  {| log_client_ip := false; err_of := fun _ => Some e_unreach; digest_of := fun _ => [7]; const_of := fun _ => [8] |}.
+  {| env_value := EVOther; err_of := fun _ => Some e_unreach; digest_of := fun _ => [7]; const_of := fun _ => [8] |}.
 
 Definition site_sanitised : site :=
   {| s_file := 1; s_line := 228; s_level := Error; s_args := [AConst; ASanitised Conns] |}.
@@ -59,3 +59,14 @@ Example table_nontrivial :
   existsb (fun s => prints default_level (s_level s) && existsb (fun a => match a with ASanitised _ => true | _ => false end) (s_args s)) sites = true /\
   existsb (fun s => existsb (fun a => match a with APlaceholder => true | _ => false end) (s_args s)) sites = true.
 Proof. vm_compute. repeat split. Qed.
+
+(* the gate is fail-closed: a value the station does not parse as true — e.g. "disabled" or a
+   "false" with a trailing blank — keeps the placeholder; only a true spelling prints the address *)
+Definition site_prefix : site := {| s_file := 1; s_line := 150; s_level := Print; s_args := [APlaceholder] |}.
+Definition ev_with (v : envval) : env := {| env_value := v; err_of := fun _ => None; digest_of := fun _ => []; const_of := fun _ => [] |}.
+Example gate_examples :
+  has_addr (output default_level site_prefix (ev_with EVOther)) = false /\
+  has_addr (output default_level site_prefix (ev_with EVUnset)) = false /\
+  has_addr (output default_level site_prefix (ev_with EVFalse)) = false /\
+  has_addr (output default_level site_prefix (ev_with EVTrue)) = true.
+Proof. repeat split. Qed.
